@@ -151,6 +151,8 @@ def Or_(*xs):
 
 
 def Not_(x):
+    if hasattr(x, "decide"):
+        return ~x
     if isinstance(x, SBool):
         return SBool(z3.Not(x.t))
     if isinstance(x, SVal):
